@@ -79,7 +79,11 @@ fn place_json<'tcx>(tcx: TyCtxt<'tcx>, body: &Body<'tcx>, p: &Place<'tcx>) -> St
         first = false;
         match elem {
             ProjectionElem::Deref => s.push_str("\"*\""),
-            ProjectionElem::Field(f, _) => { let n = field_name(tcx, pty, f); let _ = write!(s, "{{\"f\":{},\"n\":{}}}", f.as_usize(), js(&n)); }
+            ProjectionElem::Field(f, _) => {
+                let n = field_name(tcx, pty, f);
+                let a = match pty.ty.kind() { ty::Adt(adt, _) => tcx.def_path_str(adt.did()), _ => String::new() };
+                let _ = write!(s, "{{\"f\":{},\"n\":{},\"a\":{}}}", f.as_usize(), js(&n), js(&a));
+            }
             ProjectionElem::Downcast(name, v) => { let n = name.map(|x| x.to_string()).unwrap_or_default(); let _ = write!(s, "{{\"dc\":{},\"n\":{}}}", v.as_usize(), js(&n)); }
             ProjectionElem::Index(l) => { let _ = write!(s, "{{\"idx\":{}}}", l.as_usize()); }
             ProjectionElem::ConstantIndex { offset, min_length, from_end } => { let _ = write!(s, "{{\"cidx\":{},\"of\":{},\"end\":{}}}", offset, min_length, from_end); }
@@ -340,6 +344,14 @@ impl rustc_driver::Callbacks for Cb {
         let krate = tcx.crate_name(LOCAL_CRATE).to_string();
         let want = std::env::var("S3SV_CRATES").unwrap_or_default();
         if !want.split(',').any(|c| c == krate) { return Compilation::Continue; }
+        // consts that `cargo check` never evaluated have not been through mir_promoted yet: force them so the hook sees their bodies
+        for id in tcx.hir_crate_items(()).definitions() {
+            if matches!(tcx.def_kind(id), DefKind::Const { .. } | DefKind::Static { .. } | DefKind::AssocConst { .. }) {
+                if tcx.hir_maybe_body_owned_by(id).is_some() {
+                    let _ = tcx.ensure_ok().mir_promoted(id);
+                }
+            }
+        }
         let mut extra: Vec<String> = Vec::new();
         let _g1 = rustc_middle::ty::print::CrateNamePrefixGuard::new();
         let _g2 = rustc_middle::ty::print::NoVisibleGuard::new();
